@@ -18,7 +18,10 @@ let process toks = match toks with
 let process2 (toks : string list) : string =
   match toks with
   | ["STC"; "COPY"; a; _junk] -> a ^ " " ^ a
+  | ["PERMN"; r; st] -> hex_of_bytes (x_perm (nat_of_int (12 - int_of_string r)) (bytes_of_hex st))
+  | ["VER"] -> "version-positive"
+  | ["MSI"] -> String.make 80 '0' ^ " wiped"
   | ["STC"; "CLEAN"; b] -> if b = "-" then "-" else String.make (String.length b) '0'
   | _ -> "UNSUPPORTED"
 let () = register "ST" process
-let () = register "STC" process2
+let () = List.iter (fun n -> register n process2) ["STC"; "PERMN"; "VER"; "MSI"]
